@@ -1,7 +1,7 @@
 """C09 — nothing crosses TCP connection generations: no stale frame, no stale reply.
 See vlib/txncommon.py; this check reports the Gen* clauses of prop/Txn (generation-ending scenarios)."""
-import json
-from . import txncommon
+import json, os
+from . import common, txncommon, s1common
 
 
 def run(ctx):
@@ -9,6 +9,25 @@ def run(ctx):
         txncommon.run(ctx, 40, "drop,gen,close,gen,drop", par=4)
     else:
         txncommon.run(ctx, 200, "drop,gen,close,gen,drop", par=4, passes=3)
+    secs1(ctx)
+
+
+def secs1(ctx):
+    """the same guarantee on the SECS-I transport: a generation ends while one send waits for its reply, one occupies the
+    line engine, and three are queued behind it (W, no-W, fire-and-forget); four role / mode combinations per pass"""
+    allobs = s1common.record(ctx, "gen", passes=2 if ctx.quick else 10)
+    lines, rejs, res = s1common.judge(ctx, allobs, ("e4gen",))
+    groups = {}
+    for d, why in rejs:
+        if why == "HarnessFault":
+            continue
+        g = groups.setdefault("c09:secs1:%s" % why, dict(n=0, first=d))
+        g["n"] += 1
+    for sig, g in sorted(groups.items()):
+        ctx.violation("SECS-I generation scenario rejected (%s), %d scenario(s): %s" % (sig, g["n"], common.short(g["first"], 500)),
+                      dict(binding="B2 E4 reference peer + OracleE4", signature=sig, occurrences=g["n"], observation=g["first"]))
+    ctx.cov["secs1_generation_scenarios"] = len(lines)
+    ctx.cov["traces_validated_against_impl"] = ctx.cov.get("traces_validated_against_impl", 0) + len(lines)
 
 
 def selftest(ctx):
